@@ -35,7 +35,7 @@ def canon(t):
 @st.composite
 def self_case(draw):
     case = draw(repl.replace_case(repl_kinds=["identical"], fractions=False, max_copies=3, decoys=False,
-                                  pattern_classes=["generic", "generic", "chiral", "planar", "rod", "symmetric", "collinear", "single"]))
+                                  pattern_classes=["generic", "generic", "chiral", "planar", "rod", "symmetric", "collinear", "single", "mirror-pair", "mirror-pair"]))
     n = len(case["ppos"])
     case["rpos"] = [list(p) for p in case["ppos"]]
     case["rels"] = list(case["pels"])
@@ -175,7 +175,7 @@ def self_oracle(case, stats):
 @st.composite
 def subst_case(draw):
     case = draw(repl.replace_case(repl_kinds=["identical"], fractions=False, max_copies=3, decoys=True,
-                                  pattern_classes=["single", "single", "generic", "generic", "chiral", "planar", "rod", "symmetric"]))
+                                  pattern_classes=["single", "single", "generic", "generic", "chiral", "planar", "rod", "symmetric", "mirror-pair", "mirror-pair"]))
     n = len(case["ppos"])
     k = draw(hperm.integers(1, n))
     change = sorted(draw(st.sets(hperm.integers(0, n - 1), min_size=k, max_size=k)))
